@@ -142,6 +142,8 @@ theorem lglobalFold_spec : ∀ (g : List KV) (tx : Option LTx) (ver : Option Nat
           split at h
           · simp at h
           · rename_i hun
+            split at h
+            · simp at h
             obtain ⟨a1, a2, a3, a5, a4⟩ := ih _ _ _ _ _ _ h
             have htn : tx = none := by simpa using htx
             obtain ⟨hser, hwf⟩ := LTx.parse_sound ht
@@ -206,7 +208,9 @@ theorem lglobalFold_nodup : ∀ (g : List KV) (tx : Option LTx) (ver : Option Na
         · simp at h
         · split at h
           · simp at h
-          · exact ih _ _ _ _ _ _ h hn
+          · split at h
+            · simp at h
+            · exact ih _ _ _ _ _ _ h hn
     · split at h
       · split at h
         · simp at h
@@ -549,6 +553,49 @@ theorem LTx.fits_of_wf (t : LTx) (h : WF t) : LTx.fits t = true := by
       simpa using this
     | conf b => rfl
 
+/-- the parts of the global transaction kept beside the scope's fields (fix `d53`) are not touched by reading pairs -/
+theorem LInScope.addPair_txparts (ko : KeyOps) (s s' : LInScope) (k v : Bytes)
+    (h : LInScope.addPair ko s k v = some s') : s'.isPegin = s.isPegin ∧ s'.txIssuance = s.txIssuance := by
+  unfold LInScope.addPair at h
+  repeat' (split at h)
+  all_goals (first | (simp at h; done) | (simp only [Option.some.injEq] at h; subst h; exact ⟨rfl, rfl⟩))
+
+theorem LInScope.addPairs_txparts (ko : KeyOps) : ∀ (kvs : List KV) (s s' : LInScope),
+    LInScope.addPairs ko s kvs = some s' → s'.isPegin = s.isPegin ∧ s'.txIssuance = s.txIssuance := by
+  intro kvs
+  induction kvs with
+  | nil => intro s s' h; simp [LInScope.addPairs] at h; subst h; exact ⟨rfl, rfl⟩
+  | cons kv kvs ih =>
+    intro s s' h
+    obtain ⟨k, v⟩ := kv
+    simp only [LInScope.addPairs] at h
+    split at h
+    · simp at h
+    · rename_i s1 h1
+      obtain ⟨a1, a2⟩ := LInScope.addPair_txparts ko s s1 k v h1
+      obtain ⟨b1, b2⟩ := ih s1 s' h
+      exact ⟨b1.trans a1, b2.trans a2⟩
+
+theorem LOutScope.addPair_txparts (ko : KeyOps) (s s' : LOutScope) (k v : Bytes)
+    (h : LOutScope.addPair ko s k v = some s') : s'.txNonce = s.txNonce := by
+  unfold LOutScope.addPair at h
+  repeat' (split at h)
+  all_goals (first | (simp at h; done) | (simp only [Option.some.injEq] at h; subst h; rfl))
+
+theorem LOutScope.addPairs_txparts (ko : KeyOps) : ∀ (kvs : List KV) (s s' : LOutScope),
+    LOutScope.addPairs ko s kvs = some s' → s'.txNonce = s.txNonce := by
+  intro kvs
+  induction kvs with
+  | nil => intro s s' h; simp [LOutScope.addPairs] at h; subst h; rfl
+  | cons kv kvs ih =>
+    intro s s' h
+    obtain ⟨k, v⟩ := kv
+    simp only [LOutScope.addPairs] at h
+    split at h
+    · simp at h
+    · rename_i s1 h1
+      exact (ih s1 s' h).trans (LOutScope.addPair_txparts ko s s1 k v h1)
+
 /-- outside the D53 region: the global transaction of a version-0 PSET has nothing the scopes cannot hold (no
     issuance, no peg-in flag, no witness data, no output nonce) and no input scope carries the PSETv2 issuance
     fields from which `LInputScope.vin` would build an issuance of its own -/
@@ -571,12 +618,14 @@ theorem LInScope.vin_of_seed (ko : KeyOps) (t : LTx) (j : Nat) (hj : j < t.vin.l
   simp [lseedIn, List.getElem?_eq_getElem hj] at e1 e2 e3
   have hai : s.assetIssuance = none := by
     simp [LInScope.assetIssuance, LInScope.geti, l1, l2, truthyN, truthyB]
-  simp only [LInScope.vin, e1, e2, e3, hai, Option.getD_some]
+  obtain ⟨p1, p2⟩ := LInScope.addPairs_txparts ko kvs _ s h
+  simp [lseedIn, List.getElem?_eq_getElem hj] at p1 p2
+  simp only [LInScope.vin, LInScope.issuance, e1, e2, e3, hai, p1, p2, Option.getD_some]
   obtain ⟨f1, f2, f3⟩ := hf
   cases hh : t.vin[j] with
   | mk a1 a2 a3 a4 a5 a6 a7 =>
     simp [hh] at hu f1 f2 f3 ⊢
-    refine ⟨?_, ?_, ?_, ?_⟩ <;> simp_all
+    simp_all
 
 theorem LOutScope.vout_of_seed (ko : KeyOps) (t : LTx) (j : Nat) (hj : j < t.vout.length) (kvs : List KV) (s : LOutScope)
     (h : LOutScope.addPairs ko (lseedOut (some t) j) kvs = some s)
@@ -591,7 +640,9 @@ theorem LOutScope.vout_of_seed (ko : KeyOps) (t : LTx) (j : Nat) (hj : j < t.vou
     obtain ⟨e1, e2, e3⟩ := e hseed
     simp [lseedOut, List.getElem?_eq_getElem hj, hv, lget] at e0 e1 e2 e3
     have ht := WFAsset_truthy _ hw
-    simp only [LOutScope.vout, LOutScope.get, e0, e1, e2, e3, ht, if_true, WFAsset_norm _ hw]
+    have q := LOutScope.addPairs_txparts ko kvs _ s h
+    simp [lseedOut, List.getElem?_eq_getElem hj, hv, hf.1] at q
+    simp only [LOutScope.vout, LOutScope.get, e0, e1, e2, e3, ht, if_true, WFAsset_norm _ hw, q]
     obtain ⟨f1, f2⟩ := hf
     cases hh : t.vout[j] with
     | mk a1 a2 a3 a4 a5 =>
@@ -604,7 +655,9 @@ theorem LOutScope.vout_of_seed (ko : KeyOps) (t : LTx) (j : Nat) (hj : j < t.vou
     obtain ⟨e1, e2, e3⟩ := e hseed
     simp [lseedOut, List.getElem?_eq_getElem hj, hv, lget] at e0 e1 e2 e3
     have ht := WFAsset_truthy _ hw
-    simp only [LOutScope.vout, LOutScope.get, e0, e1, e2, e3, ht, if_true, WFAsset_norm _ hw]
+    have q := LOutScope.addPairs_txparts ko kvs _ s h
+    simp [lseedOut, List.getElem?_eq_getElem hj, hv, hf.1] at q
+    simp only [LOutScope.vout, LOutScope.get, e0, e1, e2, e3, ht, if_true, WFAsset_norm _ hw, q]
     obtain ⟨f1, f2⟩ := hf
     cases hh : t.vout[j] with
     | mk a1 a2 a3 a4 a5 =>
